@@ -101,12 +101,19 @@ fn build(rng: &mut Rng) -> Plan {
             features.push("duplicate_definition");
         }
     }
+    // now and then every definition of one name holds the same constant: a node's own definition
+    // is its own even when it equals what it would inherit
+    let const_name: Option<&str> = if rng.chance(1, 5) { Some(*rng.pick(NAMES)) } else { None };
+    if const_name.is_some() {
+        features.push("definitions_with_equal_values_on_ancestor_and_descendant");
+    }
     for (k, n) in &defs {
         let (_, q, cap) = KINDS[*k];
+        let value = if const_name == Some(*n) { GExpr::str("same value everywhere") } else { node_value(cap, n) };
         let mut stmts = if use_var {
-            vec![stmt(StmtKind::Var(GVar::s(GExpr::cap(cap), n), node_value(cap, n)))]
+            vec![stmt(StmtKind::Var(GVar::s(GExpr::cap(cap), n), value))]
         } else {
-            vec![stmt(StmtKind::Let(GVar::s(GExpr::cap(cap), n), node_value(cap, n)))]
+            vec![stmt(StmtKind::Let(GVar::s(GExpr::cap(cap), n), value))]
         };
         let store_self = rng.chance(1, 3) && !stored_self.contains(&(*k, *n));
         if store_self {
@@ -252,7 +259,7 @@ fn build(rng: &mut Rng) -> Plan {
             let k = 1 + rng.below(3);
             if !defs.contains(&(k, name)) {
                 let (_, q, cap) = KINDS[k];
-                let value = GExpr::List(vec![GExpr::str("late"), GExpr::call("start-row", vec![GExpr::cap(cap)])]);
+                let value = if const_name == Some(name) { GExpr::str("same value everywhere") } else { GExpr::List(vec![GExpr::str("late"), GExpr::call("start-row", vec![GExpr::cap(cap)])]) };
                 let st = if use_var { StmtKind::Var(GVar::s(GExpr::cap(cap), name), value) } else { StmtKind::Let(GVar::s(GExpr::cap(cap), name), value) };
                 items.push(Item::Stanza(GStanza { query: q.into(), pool: None, stmts: vec![stmt(st)], loc: Loc::default() }));
                 if use_var && rng.chance(1, 2) {
